@@ -21,7 +21,7 @@ import logging
 import os
 import re
 
-from harness.chan_world import World, SHARED, CHAN_FD, simple_app
+from harness.chan_world import World, SHARED, CHAN_FD, simple_app, ScriptSock
 from harness.sched import Op, RandomPolicy, PCTPolicy, explore
 
 logging.disable(logging.CRITICAL)
@@ -78,6 +78,108 @@ class TracedList(list):
 
 LISTEN_FD = 3
 
+# WHICH SOCKET ERRORS ARE A CLOSE DECISION (the specification the conformance K-errno enforces;
+# Model/ChanClose.v: the environment's flush outcomes FOk / FDisc / FErr and recv outcomes REof / RErr)
+#   EWOULDBLOCK (= EAGAIN)      send: nothing was sent, no decision (FOk).  recv: handle_read's
+#                               `except OSError` -> handle_close (RErr)
+#   a SILENT DISCONNECT errno   send with do_close=True (every flush of the I/O thread): handle_close,
+#   (wasyncore._DISCONNECTED)   send returns 0 (FDisc); send with do_close=False (every flush of a worker):
+#                               swallowed, send returns 0, NO decision (FOk).  recv: handle_close inside
+#                               dispatcher.recv, b"" returned, then connected := False (REof)
+#   every other errno           send: raised, caught by _flush_exception: will_close := True on the
+#                               thread that flushed (FErr).  recv: handle_close (RErr)
+# The set is part of the specification: it is written here, audited against the source (ast and
+# run-time value, shape_audit) and NOT read from waitress by the conformance.
+EXPECTED_DISCONNECTED_NAMES = frozenset({"ECONNRESET", "ENOTCONN", "ESHUTDOWN", "ECONNABORTED", "EPIPE", "EBADF"})
+EXPECTED_DISCONNECTED = frozenset(getattr(errno, n) for n in EXPECTED_DISCONNECTED_NAMES)
+NETWORK_ERRNOS = tuple(getattr(errno, n) for n in (
+    "ETIMEDOUT", "EHOSTUNREACH", "ENETUNREACH", "ENETDOWN", "ENETRESET", "ECONNREFUSED", "EHOSTDOWN") if hasattr(errno, n))
+WOULDBLOCK = frozenset({errno.EWOULDBLOCK, errno.EAGAIN})
+
+
+def errno_name(e):
+    return errno.errorcode.get(e, str(e))
+
+
+def pick_errno(rng):
+    """An errno for an injected fault: all of errno.errorcode is in range; the members of the
+    CURRENT wasyncore._DISCONNECTED (read at run time, so that a widened set is exercised with
+    its new members) and the network errnos nearest to them are always well represented."""
+    r = rng.random()
+    if r < 0.3:
+        return rng.choice(NETWORK_ERRNOS)
+    if r < 0.6:
+        try:
+            from waitress import wasyncore
+            cur = sorted(wasyncore._DISCONNECTED)
+        except Exception:  # pragma: no cover
+            cur = sorted(EXPECTED_DISCONNECTED)
+        return rng.choice(cur)
+    return rng.choice(sorted(errno.errorcode))
+
+
+class FaultSock(ScriptSock):
+    """ScriptSock that notes the errno the 'kernel' answered with (the class of a World's socket is
+    switched to this one: no state of its own)."""
+
+    def send(self, data):
+        try:
+            return ScriptSock.send(self, data)
+        except OSError as e:
+            self.w.sched.note("send_err", e.errno)
+            raise
+
+    def recv(self, n):
+        try:
+            return ScriptSock.recv(self, n)
+        except OSError as e:
+            self.w.sched.note("recv_err", e.errno)
+            raise
+
+
+def errno_conformance(events):
+    """K-errno: every socket error the scripted kernel answered with is followed, on the thread that
+    made the call, by exactly the close decision the specification above prescribes.
+    -> list of dicts (problems)."""
+    by_thread = {}
+    for i, (t, kind, d) in enumerate(events):
+        by_thread.setdefault(t, []).append(i)
+    problems = []
+    for t, idxs in by_thread.items():
+        for k, i in enumerate(idxs):
+            kind, e = events[i][1], events[i][2]
+            if kind not in ("send_err", "recv_err"):
+                continue
+            # the decisions this thread takes before its next socket call
+            decs = []
+            cut = False
+            for j in idxs[k + 1:]:
+                k2, d2 = events[j][1], events[j][2]
+                if k2 in ("sock_send", "sock_recv", "select"):
+                    break
+                if k2 == "decide":
+                    decs.append(d2[0])
+            else:
+                cut = True       # the run ended before the thread's next socket call
+            is_io = (t == "io")
+            if kind == "send_err":
+                if e in WOULDBLOCK:
+                    want = []
+                elif e in EXPECTED_DISCONNECTED:
+                    want = ["handle_close"] if is_io else []
+                else:
+                    want = ["flush_err_io" if is_io else "flush_err_w"]
+                got = [x for x in decs if x in ("handle_close", "flush_err_io", "flush_err_w", "handle_close_by_worker")]
+                if is_io and want == ["flush_err_io"] and got[:1] == want:
+                    got = got[:1]        # handle_write goes on to handle_close: a later decision
+            else:
+                want = ["handle_close", "eof"] if e in EXPECTED_DISCONNECTED else ["handle_close"]
+                got = [x for x in decs if x in ("handle_close", "eof")]
+            if got != want and not (cut and got == want[:len(got)]):
+                problems.append({"event": i, "thread": t, "call": kind[:4], "errno": e, "errno_name": errno_name(e),
+                                 "expected_decisions": want, "observed_decisions": got})
+    return problems
+
 
 class MaintListener:
     """Stands in for the listening BaseWSGIServer in the socket map: its readable() runs the REAL
@@ -129,6 +231,7 @@ class CloseWorld(World):
         k.setdefault("max_steps", 1500)
         self.maint = k.pop("maint", False)
         World.__init__(self, *a, **k)
+        self.sock.__class__ = FaultSock
         self.req_ids = {}
         self.req_objs = []
         self.sched.observer = self._observe
@@ -994,7 +1097,7 @@ def gen_scenario(rng, with_faults=True):
         for _ in range(rng.choice([1, 2, 3, 4, 5])):
             plan += [rng.choice([1, 7, 40]), 0]
         if with_faults and rng.random() < 0.2:
-            plan.append(["err", rng.choice([errno.EHOSTUNREACH, errno.EPIPE])])
+            plan.append(["err", pick_errno(rng)])
         sc["send_plan"] = plan
     elif with_faults and r < 0.55:
         plan = []
@@ -1004,15 +1107,13 @@ def gen_scenario(rng, with_faults=True):
                 plan.append(0)
             elif r < 0.45:
                 plan.append(rng.choice([1, 7, 40]))
-            elif r < 0.7:
-                plan.append(["err", rng.choice([errno.EHOSTUNREACH, errno.ENETDOWN, errno.ENOBUFS])])
             elif r < 0.9:
-                plan.append(["err", rng.choice([errno.EPIPE, errno.ECONNRESET])])
+                plan.append(["err", pick_errno(rng)])
             else:
                 plan.append(None)
         sc["send_plan"] = plan
     if with_faults and rng.random() < 0.1:
-        sc["recv_faults"] = {str(rng.choice([0, 1])): rng.choice([errno.ECONNRESET, errno.EHOSTUNREACH])}
+        sc["recv_faults"] = {str(rng.choice([0, 1])): pick_errno(rng)}
     r = rng.random()
     if r < 0.12:
         # the listener's maintenance runs in some poll turns; mostly with every idle channel overdue
@@ -1281,4 +1382,30 @@ def shape_audit():
         got = shape_of(q)
         if got != want:
             bad.append((q, want, got))
+    # the set of "silent disconnect" errnos: by name in the source, and by value at run time
+    want = " ".join(sorted(EXPECTED_DISCONNECTED_NAMES))
+    got = None
+    try:
+        tree = ast.parse(open(os.path.join(_src_root(), "wasyncore.py")).read())
+        for n in tree.body:
+            if isinstance(n, ast.Assign) and any(isinstance(t, ast.Name) and t.id == "_DISCONNECTED" for t in n.targets):
+                v = n.value
+                if isinstance(v, ast.Call) and getattr(v.func, "id", None) == "frozenset" and len(v.args) == 1 \
+                        and isinstance(v.args[0], (ast.Set, ast.Tuple, ast.List)) \
+                        and all(isinstance(x, ast.Name) for x in v.args[0].elts):
+                    got = " ".join(sorted(x.id for x in v.args[0].elts))
+                else:
+                    got = "?" + ast.unparse(v)
+    except OSError as e:  # pragma: no cover
+        got = "unreadable: %s" % e
+    if got != want:
+        bad.append(("wasyncore._DISCONNECTED (source)", want, got))
+    try:
+        from waitress import wasyncore
+        cur = frozenset(wasyncore._DISCONNECTED)
+        if cur != EXPECTED_DISCONNECTED:
+            bad.append(("wasyncore._DISCONNECTED (run-time value)", " ".join(sorted(map(errno_name, EXPECTED_DISCONNECTED))),
+                        " ".join(sorted(map(errno_name, cur)))))
+    except Exception as e:  # pragma: no cover
+        bad.append(("wasyncore._DISCONNECTED (run-time value)", want, "unreadable: %s" % e))
     return bad
